@@ -1,7 +1,9 @@
 package an
 
 import (
+	"go/ast"
 	"go/types"
+	"regexp"
 	"sort"
 	"strings"
 )
@@ -78,4 +80,36 @@ func InPkg(s *FuncSrc, pkgs ...string) bool {
 		}
 	}
 	return false
+}
+
+// CallsNamed returns every static call site of any method or function with
+// the given name (used where the callee is a method of an anonymous interface
+// and so has no nameable object).
+func (p *Program) CallsNamed(name string) []CallSite {
+	p.buildIndexes()
+	var out []CallSite
+	for o, sites := range p.callIdx {
+		if o.Name() == name {
+			out = append(out, sites...)
+		}
+	}
+	sort.Slice(out, func(i, j int) bool { return out[i].Call.Pos() < out[j].Call.Pos() })
+	return out
+}
+
+// MCallNamed matches method calls by selector name whose receiver expression
+// has the given canonical form (regexp).
+func MCallNamed(name, recvRe string) Matcher {
+	rx := regexp.MustCompile(recvRe)
+	return Matcher{Desc: "call " + name + " on " + recvRe, Ok: true, M: func(f *Fn, n ast.Node) bool {
+		ce, ok := n.(*ast.CallExpr)
+		if !ok {
+			return false
+		}
+		sel, ok := ast.Unparen(ce.Fun).(*ast.SelectorExpr)
+		if !ok || sel.Sel.Name != name {
+			return false
+		}
+		return rx.MatchString(f.Canon(sel.X))
+	}}
 }
